@@ -22,6 +22,8 @@ Proof.
   destruct d1 as [|n|k], d2 as [|m|k']; try discriminate; intros H; eauto.
 Qed.
 
+Lemma delta_0 c : delta c 0 = 0. Proof. destruct c; reflexivity. Qed.
+
 Ltac splits := repeat match goal with |- _ /\ _ => split end.
 
 (** * swaps *)
@@ -136,7 +138,8 @@ Qed.
 Record WF (s : state) : Prop := {
   wf_params : params_valid (st_params s) = true;
   wf_nonneg : nonneg s;
-  wf_pools : pools_ok (st_pools s) (st_next s)
+  wf_pools : pools_ok (st_pools s) (st_next s);
+  wf_sup : forall d, 0 <= st_sup s d          (* a supply is a sum of balances *)
 }.
 
 (** * creation fee *)
@@ -210,4 +213,104 @@ Proof.
   - intros x e. rewrite F4, F3, F2, F1. unfold delta.
     destruct (at_ x M_coinswap e (Lpt q)); destruct (at_ x sender e cd); destruct (at_ x M_feecollector e cd); lia.
   - intros e. rewrite S4, S3, S2, S1. unfold delta. destruct (denom_eqb e cd); lia.
+Qed.
+
+(* the three ways an addition can succeed *)
+Inductive add_case (s s' : state) (sender : acct) (tokn max_tok exact_std min_liq m : Z) : Prop :=
+| AddCreated (tax : Z) :
+    lookup_pool tokn (st_pools s) = None ->
+    st_pools s' = (tokn, st_next s) :: st_pools s -> st_next s' = st_next s + 1 ->
+    m = exact_std -> exact_std <= p_cap (st_params s) -> min_liq <= m ->
+    tax_part (p_cfee_amt (st_params s)) (p_tax (st_params s)) = Some tax ->
+    0 <= tax <= p_cfee_amt (st_params s) ->
+    add_bal_eq s s' sender (st_next s) tokn exact_std max_tok m (p_cfee_denom (st_params s)) (p_cfee_amt (st_params s)) tax ->
+    add_sup_eq s s' (st_next s) m (p_cfee_denom (st_params s)) (p_cfee_amt (st_params s) - tax) ->
+    add_case s s' sender tokn max_tok exact_std min_liq m
+| AddEmpty (q : Z) :
+    lookup_pool tokn (st_pools s) = Some q -> st_sup s (Lpt q) = 0 ->
+    st_pools s' = st_pools s -> st_next s' = st_next s ->
+    m = exact_std -> exact_std <= p_cap (st_params s) -> min_liq <= m ->
+    add_bal_eq s s' sender q tokn exact_std max_tok m Std 0 0 ->
+    add_sup_eq s s' q m Std 0 ->
+    add_case s s' sender tokn max_tok exact_std min_liq m
+| AddProRata (q : Z) :
+    lookup_pool tokn (st_pools s) = Some q -> st_sup s (Lpt q) <> 0 ->
+    st_pools s' = st_pools s -> st_next s' = st_next s ->
+    let X := st_bal s (Escrow q) Std in let Y := st_bal s (Escrow q) (Tok tokn) in let L := st_sup s (Lpt q) in
+    let std_in := Z.min exact_std (p_cap (st_params s) - X) in
+    let dep := Z.quot (Y * std_in) X + 1 in
+    X <> 0 -> X < p_cap (st_params s) ->
+    m = Z.quot (L * std_in) X -> min_liq <= m -> 0 <= m -> dep <= max_tok -> 0 <= dep -> 0 <= std_in ->
+    add_bal_eq s s' sender q tokn std_in dep m Std 0 0 ->
+    add_sup_eq s s' q m Std 0 ->
+    add_case s s' sender tokn max_tok exact_std min_liq m.
+
+Lemma add_liquidity_effect s sender tokn max_tok exact_std min_liq s' m :
+  add_liquidity s sender tokn max_tok exact_std min_liq = Some (s', m) ->
+  params_valid (st_params s) = true -> 0 < max_tok -> 0 < exact_std ->
+  0 < wl_amount (Tok tokn) (p_wl (st_params s)) /\ st_params s' = st_params s /\
+  add_case s s' sender tokn max_tok exact_std min_liq m.
+Proof.
+  intros H HP Hmt Hes. unfold add_liquidity in H. inv. bool_hyps.
+  split; [assumption|].
+  destruct (lookup_pool tokn (st_pools s)) as [q|] eqn:LP.
+  - destruct (st_sup s (Lpt q) =? 0) eqn:L0.
+    + apply Z.eqb_eq in L0. inv. unfold initial_add_checks in G0. bool_hyps.
+      destruct (add_transfer_effect _ _ _ _ _ _ _ _ _ Std H ltac:(lia) ltac:(lia) ltac:(lia)) as (-> & M & _ & B & S).
+      destruct M as [M1 M2 M3]. split; [exact M1|].
+      eapply AddEmpty; eauto; lia.
+    + apply Z.eqb_neq in L0. inv. bool_hyps.
+      unfold SdkInt.sub in E. apply int_chk_some in E as [-> _].
+      unfold SdkInt.mul in E0, E2. apply int_chk_some in E0 as [-> _]. apply int_chk_some in E2 as [-> _].
+      unfold SdkInt.quo in E1, E3.
+      destruct (st_bal s (Escrow q) Std =? 0) eqn:X0; [discriminate|]. apply Z.eqb_neq in X0.
+      assert (R1 : v1 = Z.quot (st_sup s (Lpt q) * Z.min exact_std (p_cap (st_params s) - st_bal s (Escrow q) Std)) (st_bal s (Escrow q) Std)) by congruence.
+      assert (R3 : v3 = Z.quot (st_bal s (Escrow q) (Tok tokn) * Z.min exact_std (p_cap (st_params s) - st_bal s (Escrow q) Std)) (st_bal s (Escrow q) Std)) by congruence.
+      clear E1 E3.
+      unfold SdkInt.add in E4. apply int_chk_some in E4 as [-> _].
+      destruct (add_transfer_effect _ _ _ _ _ _ _ _ _ Std H ltac:(lia) ltac:(lia) ltac:(lia)) as (-> & M & _ & B & S).
+      destruct M as [M1 M2 M3]. split; [exact M1|].
+      subst v1 v3.
+      eapply AddProRata; eauto; lia.
+  - inv. unfold initial_add_checks in G0. bool_hyps.
+    destruct (deduct_creation_fee_effect _ _ _ E HP) as (tax & TP & TR & [F1 F2 F3] & _ & FS & FB).
+    cbv zeta in TP, TR, FS, FB.
+    match type of H with add_transfer ?st _ _ _ _ _ _ = _ => set (s2 := st) in * end.
+    destruct (add_transfer_effect _ _ _ _ _ _ _ _ _ (p_cfee_denom (st_params s)) H ltac:(lia) ltac:(lia) ltac:(lia)) as (-> & M & _ & B & S).
+    destruct M as [M1 M2 M3]. subst s2. cbn [st_params st_next st_pools st_bal st_sup] in *.
+    split; [congruence|].
+    eapply AddCreated with (tax := tax); eauto; try lia; try congruence.
+    + intros x e. rewrite B. cbn [st_bal]. rewrite FB. rewrite !delta_0. lia.
+    + intros e. rewrite S. cbn [st_sup]. rewrite FS. rewrite !delta_0. lia.
+Qed.
+
+Lemma remove_liquidity_effect s sender q w min_std min_tok s' ps pt :
+  remove_liquidity s sender q w min_std min_tok = Some (s', (ps, pt)) -> 0 < w ->
+  exists tokn, lookup_seq q (st_pools s) = Some tokn /\
+    let X := st_bal s (Escrow q) Std in let Y := st_bal s (Escrow q) (Tok tokn) in let L := st_sup s (Lpt q) in
+    w <= L /\ ps = Z.quot (w * X) L /\ pt = Z.quot (w * Y) L /\ 0 <= ps /\ 0 <= pt /\
+    min_std <= ps /\ min_tok <= pt /\ w <= st_bal s sender (Lpt q) /\
+    same_meta s s' /\
+    (forall e, st_sup s' e = st_sup s e - delta (denom_eqb e (Lpt q)) w) /\
+    forall x e, st_bal s' x e = st_bal s x e
+       - delta (at_ x sender e (Lpt q)) w
+       + delta (at_ x sender e Std) ps - delta (at_ x (Escrow q) e Std) ps
+       + delta (at_ x sender e (Tok tokn)) pt - delta (at_ x (Escrow q) e (Tok tokn)) pt.
+Proof.
+  intros H Hw. unfold remove_liquidity in H. inv. bool_hyps.
+  exists v. split; [reflexivity|]. cbv zeta.
+  unfold SdkInt.mul in E0, E2. apply int_chk_some in E0 as [-> _]. apply int_chk_some in E2 as [-> _].
+  unfold SdkInt.quo in E1, E3.
+  destruct (st_sup s (Lpt q) =? 0) eqn:L0; [discriminate|].
+  assert (R1 : ps = Z.quot (w * st_bal s (Escrow q) Std) (st_sup s (Lpt q))) by congruence.
+  assert (R3 : pt = Z.quot (w * st_bal s (Escrow q) (Tok v)) (st_sup s (Lpt q))) by congruence.
+  clear E1 E3.
+  destruct (send_spec _ _ _ _ _ _ E4 ltac:(lia)) as (M1 & S1 & _ & B1 & F1).
+  destruct (burn_spec _ _ _ _ _ E5 ltac:(lia)) as (M2 & S2 & B2 & F2).
+  destruct (send_spec _ _ _ _ _ _ E6 ltac:(lia)) as (M3 & S3 & _ & B3 & F3).
+  destruct (send_spec _ _ _ _ _ _ E7 ltac:(lia)) as (M4 & S4 & _ & B4 & F4).
+  splits; try assumption; try lia.
+  - apply (same_meta_trans _ _ _ (same_meta_trans _ _ _ (same_meta_trans _ _ _ M1 M2) M3) M4).
+  - intros e. rewrite S4, S3, S2, S1. reflexivity.
+  - intros x e. rewrite F4, F3, F2, F1. unfold delta. destruct (at_ x M_coinswap e (Lpt q)); lia.
 Qed.
